@@ -4,6 +4,8 @@
 -/
 import BumpProof.Lemmas.MemWrite
 
+set_option linter.unusedSimpArgs false
+
 namespace Arena
 open Rs
 
